@@ -193,17 +193,24 @@ end clip
 section flc
 variable {α : Type} [Field α] [LinearOrder α] [IsStrictOrderedRing α]
 
-/-- **The FLC value the code's formula yields is in [-1, 1]** (squared form), for every target field `f`, every
-translation `t`, every template `G` and every non-negative mask `Wm` (binary, soft, interpolated) with positive
-mass and a template that is not constant under it — including the guard branch for (near-)constant windows.
-Together with C01's `flc_impl_eq_spec` this bounds what the FFT pipeline computes in exact arithmetic. -/
-theorem flc_formula_sq_le_one (sqrt : α → α) (hs : SqrtOk sqrt) (eps : α) (he0 : 0 < eps) (he1 : eps ≤ 1)
+/-- the pieces of the FLC-family formulas in terms of the masked window sums (`Win`) -/
+theorem flc_core (sqrt : α → α) (hs : SqrtOk sqrt) (eps : α)
     (ms : List Nat) (t : List Int) (f f2 G Wm : List Int → α) (hf2 : ∀ x, f2 x = f x * f x)
     (hw : ∀ k, inShape ms k = true → 0 ≤ Wm (natsToInts k))
     (hn : 0 < sumShape ms (fun k => Wm (natsToInts k)))
     (hvar : 0 < (Win.mk ms (fun k => Wm (natsToInts k)) (fun k => f (specIdx ms t k)) (fun k => G (natsToInts k))).B) :
-    (scoreFLC (ordOps sqrt eps) (fun a b => corrSpec ms a b t) ms f f2 G Wm) ^ 2 ≤ 1 := by
-  set W : Win α := ⟨ms, fun k => Wm (natsToInts k), fun k => f (specIdx ms t k), fun k => G (natsToInts k)⟩ with hW
+    let W : Win α := ⟨ms, fun k => Wm (natsToInts k), fun k => f (specIdx ms t k), fun k => G (natsToInts k)⟩
+    let σ := sqrt (W.B / W.n)
+    let sd0 := sqrt (W.A / W.n)
+    maskSum (ordOps sqrt eps) ms Wm = W.n ∧
+    normStats (ordOps sqrt eps) ms G Wm W.n = (W.mu, σ) ∧
+    corrSpec ms f (normT (ordOps sqrt eps) (W.mu, σ) G Wm) t = W.N / σ ∧
+    (ordOps sqrt eps).sqrt ((ordOps sqrt eps).max0 ((ordOps sqrt eps).sub
+      ((ordOps sqrt eps).div (corrSpec ms f2 Wm t) W.n)
+      ((ordOps sqrt eps).sq ((ordOps sqrt eps).div (corrSpec ms f Wm t) W.n)))) = sd0 ∧
+    0 < σ ∧ 0 ≤ sd0 ∧ σ * σ = W.B / W.n ∧ sd0 * sd0 = W.A / W.n ∧
+    (∀ k, inShape W.ms k = true → 0 ≤ W.w k) ∧ 0 < W.n := by
+  intro W σ sd0
   have hWn : W.n = sumShape ms (fun k => Wm (natsToInts k)) := rfl
   have hnn : W.n ≠ 0 := ne_of_gt hn
   have hw' : ∀ k, inShape W.ms k = true → 0 ≤ W.w k := hw
@@ -235,7 +242,7 @@ theorem flc_formula_sq_le_one (sqrt : α → α) (hs : SqrtOk sqrt) (eps : α) (
       rw [← this]; unfold Win.mu; ring
     rw [evar, max0_of_nonneg sqrt eps _ hBn]
     rfl
-  set σ := sqrt (W.B / W.n) with hσdef
+  have hσdef : σ = sqrt (W.B / W.n) := rfl
   have hσσ : σ * σ = W.B / W.n := hs.sq _ hBn
   have hσpos : 0 < σ := by
     have h0 := hs.nonneg (W.B / W.n)
@@ -257,7 +264,6 @@ theorem flc_formula_sq_le_one (sqrt : α → α) (hs : SqrtOk sqrt) (eps : α) (
     simp only [normT, normApply, ordOps, W]
     field_simp
   -- window standard deviation
-  set sd0 := sqrt (W.A / W.n) with hsd0
   have e_sd : (ordOps sqrt eps).sqrt ((ordOps sqrt eps).max0 ((ordOps sqrt eps).sub
       ((ordOps sqrt eps).div (sumShape ms (fun k => W.w k * (W.a k * W.a k))) W.n)
       ((ordOps sqrt eps).sq ((ordOps sqrt eps).div (sumShape ms (fun k => W.w k * W.a k)) W.n)))) = sd0 := by
@@ -269,13 +275,29 @@ theorem flc_formula_sq_le_one (sqrt : α → α) (hs : SqrtOk sqrt) (eps : α) (
     rfl
   have hsd_sq : sd0 * sd0 = W.A / W.n := hs.sq _ hAn
   have hsd_nn : 0 ≤ sd0 := hs.nonneg _
+  refine ⟨e_n, e_st, e_num, ?_, hσpos, hsd_nn, hσσ, hsd_sq, hw', hn⟩
+  rw [e_s1, e_s2]; exact e_sd
+
+/-- **The FLC value the code's formula yields is in [-1, 1]** (squared form), for every target field `f`, every
+translation `t`, every template `G` and every non-negative mask `Wm` (binary, soft, interpolated) with positive
+mass and a template that is not constant under it — including the guard branch for (near-)constant windows.
+Together with C01's `flc_impl_eq_spec` this bounds what the FFT pipeline computes in exact arithmetic. -/
+theorem flc_formula_sq_le_one (sqrt : α → α) (hs : SqrtOk sqrt) (eps : α) (he0 : 0 < eps) (he1 : eps ≤ 1)
+    (ms : List Nat) (t : List Int) (f f2 G Wm : List Int → α) (hf2 : ∀ x, f2 x = f x * f x)
+    (hw : ∀ k, inShape ms k = true → 0 ≤ Wm (natsToInts k))
+    (hn : 0 < sumShape ms (fun k => Wm (natsToInts k)))
+    (hvar : 0 < (Win.mk ms (fun k => Wm (natsToInts k)) (fun k => f (specIdx ms t k)) (fun k => G (natsToInts k))).B) :
+    (scoreFLC (ordOps sqrt eps) (fun a b => corrSpec ms a b t) ms f f2 G Wm) ^ 2 ≤ 1 := by
+  obtain ⟨e_n, e_st, e_num, e_sd, hσpos, hsd_nn, hσσ, hsd_sq, hw', hn'⟩ := flc_core sqrt hs eps ms t f f2 G Wm hf2 hw hn hvar
+  set W : Win α := ⟨ms, fun k => Wm (natsToInts k), fun k => f (specIdx ms t k), fun k => G (natsToInts k)⟩
+  set σ := sqrt (W.B / W.n)
+  set sd0 := sqrt (W.A / W.n)
   unfold scoreFLC
-  simp only [e_n, e_st, e_s1, e_s2, e_num, e_sd]
+  simp only [e_n, e_st, e_num, e_sd]
   by_cases hg : sd0 < eps
-  · -- guard branch
-    have : (ordOps sqrt eps).lt sd0 (ordOps sqrt eps).eps = true := by simp [ordOps, hg]
+  · have : (ordOps sqrt eps).lt sd0 (ordOps sqrt eps).eps = true := by simp [ordOps, hg]
     simp only [this, if_true]
-    have hb := W.guard_branch_small hw' hn σ sd0 hσpos hsd_nn hσσ hsd_sq
+    have hb := W.guard_branch_small hw' hn' σ sd0 hσpos hsd_nn hσσ hsd_sq
     have e : (ordOps sqrt eps).div (W.N / σ) ((ordOps sqrt eps).mul (ordOps sqrt eps).one W.n) = (W.N / σ) / W.n := by
       simp [ordOps]
     rw [e]
@@ -287,7 +309,38 @@ theorem flc_formula_sq_le_one (sqrt : α → α) (hs : SqrtOk sqrt) (eps : α) (
     have e : (ordOps sqrt eps).div (W.N / σ) ((ordOps sqrt eps).mul sd0 W.n) = (W.N / σ) / (sd0 * W.n) := by
       simp [ordOps]
     rw [e]
-    exact W.score_sq_le_one hw' hn σ sd0 hσpos hsdpos hσσ hsd_sq
+    exact W.score_sq_le_one hw' hn' σ sd0 hσpos hsdpos hσσ hsd_sq
+
+/-- **FLCSphericalMask** (mask not rotated, template standardised at setup and again after rotation): the value of the
+code's formula is in [-1, 1] as well; `G` is whatever the rotated, once-standardised template is. -/
+theorem flcSph_formula_sq_le_one (sqrt : α → α) (hs : SqrtOk sqrt) (eps : α) (he0 : 0 < eps)
+    (ms : List Nat) (t : List Int) (rot : (List Int → α) → (List Int → α)) (f f2 g Wm : List Int → α)
+    (hf2 : ∀ x, f2 x = f x * f x)
+    (hw : ∀ k, inShape ms k = true → 0 ≤ Wm (natsToInts k))
+    (hn : 0 < sumShape ms (fun k => Wm (natsToInts k)))
+    (hvar : 0 < (Win.mk ms (fun k => Wm (natsToInts k)) (fun k => f (specIdx ms t k))
+        (fun k => rot (normT (ordOps sqrt eps) (normStats (ordOps sqrt eps) ms g Wm (maskSum (ordOps sqrt eps) ms Wm)) g Wm) (natsToInts k))).B) :
+    (scoreFLCSph (ordOps sqrt eps) (fun a b => corrSpec ms a b t) ms rot f f2 g Wm) ^ 2 ≤ 1 := by
+  set G := rot (normT (ordOps sqrt eps) (normStats (ordOps sqrt eps) ms g Wm (maskSum (ordOps sqrt eps) ms Wm)) g Wm) with hG
+  obtain ⟨e_n, e_st, e_num, e_sd, hσpos, hsd_nn, hσσ, hsd_sq, hw', hn'⟩ := flc_core sqrt hs eps ms t f f2 G Wm hf2 hw hn hvar
+  set W : Win α := ⟨ms, fun k => Wm (natsToInts k), fun k => f (specIdx ms t k), fun k => G (natsToInts k)⟩
+  set σ := sqrt (W.B / W.n)
+  set sd0 := sqrt (W.A / W.n)
+  have hG2 : rot (normT (ordOps sqrt eps) (normStats (ordOps sqrt eps) ms g Wm W.n) g Wm) = G := by rw [hG, e_n]
+  unfold scoreFLCSph
+  simp only [e_n, hG2, e_st, e_num, e_sd]
+  by_cases hg : eps < sd0
+  · have : (ordOps sqrt eps).lt (ordOps sqrt eps).eps sd0 = true := by simp [ordOps, hg]
+    simp only [this, if_true]
+    have hsdpos : 0 < sd0 := lt_trans he0 hg
+    have e : (ordOps sqrt eps).mul (W.N / σ) ((ordOps sqrt eps).div (ordOps sqrt eps).one ((ordOps sqrt eps).mul sd0 W.n))
+        = (W.N / σ) / (sd0 * W.n) := by
+      simp [ordOps]; ring
+    rw [e]
+    exact W.score_sq_le_one hw' hn' σ sd0 hσpos hsdpos hσσ hsd_sq
+  · have : (ordOps sqrt eps).lt (ordOps sqrt eps).eps sd0 = false := by simp [ordOps, hg]
+    simp only [this, if_false, Bool.false_eq_true]
+    simp [ordOps]
 
 end flc
 
